@@ -95,7 +95,7 @@ func init() {
 func init() {
 	properties["C05"] = Property{
 		Level: "exploration",
-		Rule:  "cases = literals (bytes of length 0..2300 biased to the boundaries 7/8/9, 255/256/257, 2047/2048/2049; contents: all byte values, runs, quotes/backslashes, invalid UTF-8) x form {string, typed string, folded concatenation, []byte, [N]byte, &[]byte, &[N]byte} x syntactic context (13 kinds incl. const declarations, array lengths and case labels) x obfuscator {simple, swap, split, shuffle, seed, garble's own choice} x math/rand seed; each batch is obfuscated with literals.Obfuscate, printed, compiled with the real compiler and run, and every carrier's run-time bytes are compared with the bytes written into the source. End-to-end: generated programs built with garble -literals and compared with the regular build. evaluations = literal x seed pairs. Non-trivial = length inside the obfuscation window [8, 2048] and not a typed/const form that stays a constant; distinct = (obfuscator, form, context, length bucket).",
+		Rule:  "cases = literals (bytes of length 0..2300 biased to the boundaries 7/8/9, 255/256/257, 2047/2048/2049; contents: all byte values, runs, quotes/backslashes, invalid UTF-8) x form {string, typed string, folded concatenation, []byte, [N]byte, &[]byte, &[N]byte} x syntactic context (13 kinds incl. const declarations, array lengths and case labels) x obfuscator {simple, swap, split, shuffle, seed, garble's own choice} x math/rand seed; each batch is obfuscated with literals.Obfuscate, printed, compiled with the real compiler and run, and every carrier's run-time bytes are compared with the bytes written into the source. Array forms list fewer elements than the array has in three of seven draws (1, 7 or 300 trailing zero elements). End-to-end: generated programs built with garble -literals and compared with the regular build. evaluations = literal x seed pairs. Non-trivial = length inside the obfuscation window [8, 2048] and not a typed/const form that stays a constant; distinct = (obfuscator, form, context, length bucket).",
 		Assumptions: []string{
 			"expected values come from the generator, never from garble",
 			"split, shuffle and seed are forced only on literals up to 256 bytes, the largest size at which garble itself selects them",
@@ -141,7 +141,7 @@ func init() {
 func init() {
 	properties["C11"] = Property{
 		Level: "exploration",
-		Rule: "cases = generated functions (typed statement grammar: assignments, if/else, 3-clause/condition/range loops over slice, string, int, map and channel, switch with fallthrough, labelled break/continue, goto, select, defer and recover, closures mutating captured variables, conditional panics, calls to earlier functions, methods with value and pointer receivers, generic functions) each marked //garble:controlflow with drawn parameters (flatten_passes 0-3, junk_jumps 0..max, block_splits 0..max, trash_blocks 0-32, flatten_hardening none/xor/delegate_table/both) and called with 3-6 drawn argument tuples; oracle = results, trace and panic outcome per call equal the regular build's; rejected programs are re-built one function at a time. evaluations = functions. Non-trivial = the obfuscated build succeeded and the body contains a branch or loop; distinct = (set of statement kinds and parameter classes, function kind).",
+		Rule: "cases = generated functions (typed statement grammar: assignments, if/else, 3-clause/condition/range loops over slice, string, int, map and channel, switch with fallthrough, labelled break/continue, goto, select, defer and recover, closures mutating captured variables, conditional panics, calls to earlier functions, methods with value and pointer receivers, generic functions, nil values (typed nil pointer in an interface, nil constant converted to a named pointer/slice/func/map type, nil error from a helper, type switch over a possibly nil error), conversions between named and unnamed types) each marked //garble:controlflow with drawn parameters (flatten_passes 0-3, junk_jumps 0..max, block_splits 0..max, trash_blocks 0-32, flatten_hardening none/xor/delegate_table/both) and called with 3-6 drawn argument tuples; oracle = results, trace and panic outcome per call equal the regular build's; rejected programs are re-built one function at a time. evaluations = functions. Non-trivial = the obfuscated build succeeded and the body contains a branch or loop; distinct = (set of statement kinds and parameter classes, function kind).",
 		Assumptions: append([]string{
 			"termination by construction (bounded loops, calls only to earlier functions); a garbled binary still running after 20 s, confirmed with 40 s, counts as 'junk or trash code executed'",
 			"map ranges are used order-insensitively",
@@ -168,7 +168,7 @@ func init() {
 func init() {
 	properties["C10"] = Property{
 		Level: "exploration",
-		Rule: "cases = points of the grid crash kind (26: panics with string/error/Stringer/struct/custom error/error whose Error panics, nil dereference, index and slice bounds, division by zero, failed type assertions, nil-map write, closed/nil channel operations, mutex and channel deadlocks, re-panic in a deferred call, Goexit of main, unrecovered panic after a recovered one, nil func call, os.Exit(n), unlock of unlocked mutex, negative makeslice, stack overflow) x context (main, callee, goroutine, deferred call, closure) x mode (crash, crash under a recovering caller, position query) x GOTRACEBACK (unset, none, single, all, system), executed against generated programs (drawn own output on print/println/stderr/stdout incl. text that imitates runtime messages, crash code in main or in a dependency, drawn padding, -tiny alone or with -literals/-seed). Oracle: -tiny stderr equals exactly the program's own output (taken from a dry run of the regular binary), stdout and exit status equal the regular build's; under recover the whole output equals the regular build's; position queries report no file and line 1. Non-trivial = the regular binary wrote runtime text for the point (there was something to silence) resp. a non-nil recovered value; distinct = (kind, context, mode, GOTRACEBACK).",
+		Rule: "cases = points of the grid crash kind (26: panics with string/error/Stringer/struct/custom error/error whose Error panics, nil dereference, index and slice bounds, division by zero, failed type assertions, nil-map write, closed/nil channel operations, mutex and channel deadlocks, re-panic in a deferred call, Goexit of main, unrecovered panic after a recovered one, nil func call, os.Exit(n), unlock of unlocked mutex, negative makeslice, stack overflow) x context (main, callee, goroutine, deferred call, closure) x mode (crash, crash under a recovering caller, position query) x GOTRACEBACK (unset, none, single, all, system), executed against generated programs (drawn own output on print/println/stderr/stdout incl. text that imitates runtime messages, crash code in main or in a dependency, drawn padding, -tiny alone or with -literals/-seed). Position queries are made in 10 source layouts, among them several statements on one source line, one-line if/for/switch/function bodies and deferred closures, runtime.Callers with CallersFrames. Oracle: -tiny stderr equals exactly the program's own output (taken from a dry run of the regular binary), stdout and exit status equal the regular build's; under recover the whole output equals the regular build's; position queries report no file and line 1. Non-trivial = the regular binary wrote runtime text for the point (there was something to silence) resp. a non-nil recovered value; distinct = (kind, context, mode, GOTRACEBACK).",
 		Assumptions: append([]string{"GOTRACEBACK=crash (core dumps) and externally delivered signals are not explored", "concurrent map writes are left out: their detection is not deterministic"}, commonAssumptions...),
 		ReplayUnit:  "TestC10Replay",
 		Units: []Unit{
@@ -180,7 +180,7 @@ func init() {
 func init() {
 	properties["C04"] = Property{
 		Level: "exploration",
-		Rule: "cases = generated call chains of 3-9 frames across 1-3 packages and up to 3 files per package, each frame a function, value/pointer method, generic function, generic method, closure, goroutine entry (named helper or function literal), deferred call or deferred function literal, ending in a panic, debug.PrintStack or runtime.Caller queries; configuration from {default, -literals, -seed, -tags with tag-dependent files}; plus 0-4 lines of surrounding text (CR LF, missing final newline, 2000-byte lines, NUL bytes, look-alike trace lines). Oracle: `garble reverse` applied to the garbled program's stderr equals the stderr of the regular -trimpath build after removing code offsets, argument words and goroutine numbers; text without obfuscated tokens passes through byte for byte with exit status 1; a trace embedded in such text is reversed in place. Non-trivial = at least three obfuscated position lines and a frame outside package main; distinct = (frame kind sequence, end action, configuration).",
+		Rule: "cases = generated call chains of 3-9 frames across 1-3 packages and up to 3 files per package, each frame a function, value/pointer method, generic function, generic method, closure, goroutine entry (named helper or function literal), deferred call or deferred function literal, ending in a panic, debug.PrintStack or runtime.Caller queries; configuration from {default, -literals, -seed, -tags with tag-dependent files}; plus 0-4 lines of surrounding text (CR LF, missing final newline, 2000-byte lines, NUL bytes, look-alike trace lines). Oracle: `garble reverse` applied to the garbled program's stderr equals the stderr of the regular -trimpath build after removing code offsets, argument words and goroutine numbers; text without obfuscated tokens passes through byte for byte with exit status 1; a trace embedded in such text is reversed in place. Long-line law: the first trace line `garble reverse` changes is fed again preceded by unrelated text on the same line, once for every byte offset of the line relative to a 4 KiB and to a 64 KiB boundary; each must come back as the padding followed by what the line alone reverses to. Non-trivial = at least three obfuscated position lines and a frame outside package main; distinct = (frame kind sequence, end action, configuration).",
 		Assumptions: append([]string{"every generated call sits on one line and starts with an identifier (call-site positions are what the statement covers)"}, commonAssumptions...),
 		ReplayUnit:  "TestC04Replay",
 		Units: []Unit{
@@ -217,7 +217,7 @@ func init() {
 func init() {
 	properties["C19"] = Property{
 		Level: "fault_enumeration",
-		Rule: "cases = points of the grid command {build, run, reverse, map} x outcome {success, go list error (missing import), type error, compile error in a dependency, link error (body-less function with an empty assembly file), bad build flag, garble flag after the command} x pre-existing -debugdir target {none, absent, empty, owned with stale content, foreign files, foreign sub-directories, symlink to a foreign or to an owned directory, regular file} x cache state {module-cold, warm} x output inside or outside the source tree, each on a drawn program. Oracle: a recursive (mode, size, sha256, link target) snapshot of the source tree is unchanged apart from the requested output; the private TMPDIR is empty afterwards; a non-empty target without the marker is refused and byte-identical afterwards (also behind a symlink); an owned/absent/empty target of a successful build holds a source tree equal to the original files and a garbled tree in which every module Go file exists and parses, with no stale content. Non-trivial = a failing outcome or a -debugdir state other than none; distinct = (command, outcome, target state, cache state).",
+		Rule: "cases = points of the grid command {build, run, reverse, map} x outcome {success, go list error (missing import), type error, compile error in a dependency, link error (body-less function with an empty assembly file), bad build flag, garble flag after the command} x pre-existing -debugdir target {none, absent, empty, owned with stale content, foreign files, foreign sub-directories, symlink to a foreign or to an owned directory, regular file} x cache state {module-cold, warm} x output inside or outside the source tree, each on a drawn program. Second unit (refusals, no build needed): -debugdir targets that are not garble's {regular file, empty file, symlink to a file, symlink and symlink-to-symlink to a foreign directory, directories holding drawn entries: hidden files only, names resembling the marker, the marker one level deeper, source/ and garbled/ trees without marker} x path spelling {absolute, relative, uncleaned .., trailing slash, separate argument} x command {build, run, test}: the surroundings are byte-identical afterwards, the command fails, TMPDIR gains nothing. Oracle: a recursive (mode, size, sha256, link target) snapshot of the source tree is unchanged apart from the requested output; the private TMPDIR is empty afterwards; a non-empty target without the marker is refused and byte-identical afterwards (also behind a symlink); an owned/absent/empty target of a successful build holds a source tree equal to the original files and a garbled tree in which every module Go file exists and parses, with no stale content. Non-trivial = a failing outcome or a -debugdir state other than none; distinct = (command, outcome, target state, cache state).",
 		Assumptions: append([]string{"garble's stdout and stderr go to buffers, never to a pipe whose reader may exit first", "the grid is sampled by rapid in the quick tier and walked more densely in the thorough tier; it is not exhaustive"}, commonAssumptions...),
 		ReplayUnit:  "TestC19Replay",
 		Units: []Unit{
@@ -243,7 +243,7 @@ func init() {
 func init() {
 	properties["C14"] = Property{
 		Level: "exploration",
-		Rule: "cases = (drawn feature set placed over a fixed five-package module whose packages include siblings sharing a string prefix (alpha, alphabet), a nested package (alpha/inner) and an unrelated one (beta), so that obfuscated and plain packages import each other in both directions) x GOGARBLE pattern list from a fixed set of 12 (exact paths, element prefixes, globs, comma lists, a std package, module and host prefixes, a string prefix that is not an element prefix, lists matching nothing), built with -literals; the expected partition comes from an independent implementation of the documented prefix-glob rule (itself pinned by hand-computed cases). Oracle: output equals the regular build's incl. file:line positions reported from inside unselected packages; every marker name and in-window literal of a selected package is absent from the binary, every one of an unselected package (present in the regular binary) is still there, likewise import paths; selected packages do not report original positions; runtime function names are intact; a list matching nothing being built is refused with the GOGARBLE message and no binary. evaluations = scored markers. Non-trivial = partition with packages on both sides and an import crossing it (or a refused no-match list); distinct = (marker kind, side, pattern).",
+		Rule: "cases = (drawn feature set placed over a fixed five-package module whose packages include siblings sharing a string prefix (alpha, alphabet), a nested package (alpha/inner) and an unrelated one (beta), so that obfuscated and plain packages import each other in both directions) x GOGARBLE pattern list from a fixed set of 12 (exact paths, element prefixes, globs, comma lists, a std package, module and host prefixes, a string prefix that is not an element prefix, lists matching nothing), built with -literals; the expected partition comes from an independent implementation of the documented prefix-glob rule (itself pinned by hand-computed cases). Oracle: output equals the regular build's incl. file:line positions reported from inside unselected packages; every marker name and in-window literal of a selected package is absent from the binary, every one of an unselected package (present in the regular binary) is still there, likewise import paths; selected packages do not report original positions; runtime function names are intact; a list matching nothing being built is refused with the GOGARBLE message and no binary. Every case also tries one drawn list that selects nothing by construction (only commas, patterns of foreign hosts with stray commas, string prefixes of package paths that are not element prefixes): it must be refused. evaluations = scored markers. Non-trivial = partition with packages on both sides and an import crossing it (or a refused no-match list); distinct = (marker kind, side, pattern).",
 		Assumptions: append([]string{"positions 'verbatim' is read as file base name and line (the directory part of an unselected package's position is replaced by garble's temporary directory name on the unchanged tree)"}, commonAssumptions...),
 		ReplayUnit:  "TestC14Replay",
 		Units: []Unit{
@@ -256,7 +256,7 @@ func init() {
 func init() {
 	properties["C08"] = Property{
 		Level: "exploration",
-		Rule: "end-to-end cases = generated programs in which, for each of up to 10 flow paths drawn from 20 (direct TypeOf, helper, helper's second parameter, helper chain, interface method, pointer, slice, variadic, function value, json.Marshal, json.Unmarshal, method expression, bound method value, FieldByName, nested/pointer/slice/map/array fields, generic instantiation, alias, map value, anonymous struct, helper in the using package), a distinct struct type reaches reflection only through that path; helper names are drawn to sort before or after their callers; declared in a dependency and used from a dependant or the same package; each program is built 2 (quick) or 5 (thorough) times on fresh caches because the analysis iterates maps. Oracle: the describer's output (type names, field names, method names, JSON keys, lookups by name) equals the regular build's in every build. In-process cases = name-pair tables for the injected replacer vs. strings.NewReplacer. evaluations = (program, flow) pairs. Non-trivial = every evaluated flow (its type would otherwise be obfuscated); distinct = (flow, configuration class, cross-package?).",
+		Rule: "end-to-end cases = generated programs in which, for each of up to 10 flow paths drawn from 20 (direct TypeOf, helper, helper's second parameter, helper chain, interface method, pointer, slice, variadic, function value, json.Marshal, json.Unmarshal, method expression, bound method value, FieldByName, nested/pointer/slice/map/array fields, generic instantiation, alias, map value, anonymous struct, helper in the using package), a distinct struct type reaches reflection only through that path; helper names are drawn to sort before or after their callers; declared in a dependency and used from a dependant or the same package; each program is built 2 (quick) or 5 (thorough) times on fresh caches because the analysis iterates maps. Second end-to-end unit (GOGARBLE boundary): three-package programs (main, a payload package, a wrapper package) under GOGARBLE lists that leave the wrapper package, the payload package or nothing outside; 2-6 paths per program, each = wrapper shape {none, value, pointer, slice, slice of pointers, map value, array, embedded, wrapper in wrapper, anonymous struct field, generic wrapper} x entry {reflect.TypeOf in main / in the wrapper package / in the payload package, reflect.ValueOf, json.Marshal in main and in a helper, json.Unmarshal, FieldByName} x payload with or without a nested second payload type. Oracle: the describer's output (type names, field names, method names, JSON keys, lookups by name) equals the regular build's in every build. In-process cases = name-pair tables for the injected replacer vs. strings.NewReplacer. evaluations = (program, flow) pairs. Non-trivial = every evaluated flow (its type would otherwise be obfuscated); distinct = (flow, configuration class, cross-package?).",
 		Assumptions: append([]string{"only Name(), Kind(), Field(i).Name, Method(i).Name, FieldByName and JSON output are printed; String()/PkgPath() carry the obfuscated package qualifier by design"}, commonAssumptions...),
 		ReplayUnit:  "TestC08Replay",
 		Units: []Unit{
@@ -282,7 +282,7 @@ func init() {
 func init() {
 	properties["C06"] = Property{
 		Level: "exploration",
-		Rule: "cases = histories of 4-10 steps over ONE shared (GOCACHE, GARBLE_CACHE) that starts as the union of the warmed caches of five configurations: build under a drawn configuration {default, -tiny, -literals, -seed (three values, two of them 12-byte seeds sharing their first 8 bytes), -literals -tiny} with or without -tags and -ldflags=-X (four values, targets in main and in a dependency), edit a drawn package {literal, new function, comment only}, rebuild with nothing changed. Reference model: a memo table (configuration, flags, source digest) -> (sha256, program output) filled by the same command on private module-cold caches. Invariant after every build: same exit status, same program output and same binary as the reference; after 'rebuild with nothing changed': go build -v names no package of the module. Non-trivial = a configuration is built again after another build or an edit intervened; distinct = the sequence of (configuration class, edit kind).",
+		Rule: "cases = histories of 4-10 steps over ONE shared (GOCACHE, GARBLE_CACHE) that starts as the union of the warmed caches of the configurations the history visits: build under a drawn configuration {default, -tiny, -literals, -seed (three values, two of them 12-byte seeds sharing their first 8 bytes), -literals -tiny, GARBLE_EXPERIMENTAL_CONTROLFLOW=1, GOGARBLE = the module only, GOGARBLE = one package (alpha) and GOGARBLE = that package plus a sibling whose path has the first one's as a string prefix (alpha,alphabet) - drawn together} with or without -tags and -ldflags=-X (four values, targets in main and in a dependency), edit a drawn package {literal, new function, comment only, parameters of the //garble:controlflow directive of the program's control-flow function}, rebuild with nothing changed. Reference model: a memo table (configuration, flags, source digest) -> (sha256, program output) filled by the same command on private module-cold caches. Invariant after every build: same exit status, same program output and same binary as the reference; after 'rebuild with nothing changed': go build -v names no package of the module. Non-trivial = a configuration is built again after another build or an edit intervened; distinct = the sequence of (configuration class, edit kind).",
 		Assumptions: append([]string{"reproducibility (C03) is presupposed: configurations with an open C03 finding are not part of the histories"}, commonAssumptions...),
 		ReplayUnit:  "TestC06Replay",
 		Units: []Unit{
